@@ -113,6 +113,25 @@ class SymEval:
             if inner[0] == 'ite':
                 return inner
             return ('v', self.subst(e0, env))
+        if k in ('call', 'mcall') and getattr(self, 'distribute_calls', True):
+            # a call one of whose arguments is a decision-valued local (`let x = opt.unwrap_or(&d); f(x)`): the call
+            # of each alternative, under the same decision
+            operands = ([e0['recv']] if k == 'mcall' else []) + list(e0.get('args', []))
+            for a in operands:
+                a0 = strip(a)
+                if isinstance(a0, dict) and a0.get('k') == 'local' and a0.get('name') in env and env[a0['name']][0] == 'ite':
+                    nm = a0['name']
+                    t = env[nm]
+                    env2 = dict(env)
+                    env2.pop(nm)
+
+                    def on(tt):
+                        if tt[0] == 'ite':
+                            return ('ite', tt[1], on(tt[2]), on(tt[3]))
+                        env3 = dict(env2)
+                        env3[nm] = tt
+                        return self.value(e0, env3)
+                    return on(t)
         return ('v', self.subst(e0, env))
 
     def _option_combinator(self, e0, env):
